@@ -758,6 +758,8 @@ theorem snapshot_ok (c : Content) (p : List (Name × Rat)) (h : snapshot c = .ok
 theorem ssWorker_ok (cfg : EulerCfg) : WorkerOK (ssWorker cfg) := by
   intro c c' r h
   simp only [ssWorker] at h
+  rcases guardZeroDiv_ok h with ⟨g1, g2, _⟩ | h
+  · exact ⟨g1, fun segs hs => by rw [g2] at hs; cases hs⟩
   obtain ⟨h1, h2⟩ := ssRun_spec cfg c c' r h
   refine ⟨h1, ?_⟩
   intro segs hs s hm
